@@ -699,6 +699,17 @@ func (c *Ctx) NoBlockingWhileHolding(rule, rel string, all map[string][]*LockAna
 							check(n, "Wait", n)
 						}
 					}
+					// a user-supplied callback (a struct field of function type) may block or call back into the
+					// package for as long as it likes
+					if sel, ok := n.Fun.(*ast.SelectorExpr); ok {
+						if s := p.TypesInfo.Selections[sel]; s != nil && s.Kind() == types.FieldVal {
+							if _, isFn := s.Type().Underlying().(*types.Signature); isFn {
+								if v, ok := s.Obj().(*types.Var); ok {
+									check(n, "call of the user callback "+canonField(v), n)
+								}
+							}
+						}
+					}
 				}
 				return true
 			})
